@@ -252,3 +252,54 @@ Theorem head2ecog_support : forall (F : Type) (g : igeom F) hits w,
     (wj w = vix g a \/ wj w = vix g b \/ wj w = vix g c) /\ wset w = true.
 Proof. exact @interp_sites. Qed.
 Print Assumptions head2ecog_support.
+
+(* ------------------------------------------------------------------------------------------------------------
+   Round 3: the dimension for every loaded geometry (counting bridge, coq/Geom/DimensionBridgeC10.v), and the
+   loaded-geometry corollaries under the OLD ordering of the unknowns (coq/Geom/IndexBridgeC10Old.v: every mesh
+   vertex carries an unknown; meshes share no vertex, as the code requires for that ordering). *)
+From OM Require Geom.GeomProofs Geom.OldOrdering Geom.DimensionBridgeC10 Geom.IndexBridgeC10Old.
+
+Theorem headmat_dimension_for_every_loaded_geometry : forall g hasc zero snz fi sig sinv ind,
+  GeomModel.finalize g hasc zero snz false = (GeomModel.StOk, Some fi) ->
+  hm_dim (IndexBridgeC10.to_igeom g fi sig sinv ind)
+  = N.of_nat (GeomProofs.valid_count (seq 0 (GeomModel.g_nv g)) (GeomModel.mk_invalid (GeomModel.fi_marks fi))
+              + GeomProofs.ntris GeomModel.live (GeomModel.g_meshes g) (GeomModel.mk_flags (GeomModel.fi_marks fi))).
+Proof. exact DimensionBridgeC10.hm_dim_new. Qed.
+Print Assumptions headmat_dimension_for_every_loaded_geometry.
+
+Theorem headmat_dimension_for_every_loaded_geometry_old_ordering : forall g hasc zero snz fi sig sinv ind,
+  GeomModel.finalize g hasc zero snz true = (GeomModel.StOk, Some fi) ->
+  NoDup (flat_map GeomModel.lm_verts (GeomModel.g_meshes g)) ->
+  (forall x, In x (flat_map GeomModel.lm_verts (GeomModel.g_meshes g)) -> (x < GeomModel.g_nv g)%nat) ->
+  hm_dim (IndexBridgeC10.to_igeom g fi sig sinv ind)
+  = N.of_nat (OldOrdering.old_total (GeomModel.g_meshes g) (GeomModel.mk_flags (GeomModel.fi_marks fi))).
+Proof. exact DimensionBridgeC10.hm_dim_old. Qed.
+Print Assumptions headmat_dimension_for_every_loaded_geometry_old_ordering.
+
+Theorem potential_rows_sum_zero_for_every_loaded_geometry_old_ordering :
+  forall g hasc zero snz fi sig sinv ind K pos area Sk Dk,
+  GeomModel.finalize g hasc zero snz true = (GeomModel.StOk, Some fi) -> IndexBridgeC10.meshes_well_formed g ->
+  NoDup (flat_map GeomModel.lm_verts (GeomModel.g_meshes g)) ->
+  let G := IndexBridgeC10.to_igeom g fi sig sinv ind in
+  forall rho, In rho (IndexBridgeC10Old.VVold g) -> ~ In (vix G rho) (outer_idx G) ->
+  Rsum (fun u => mget RO (headmat RO K pos area Sk Dk G) (vix G rho) (vix G u)) (IndexBridgeC10Old.VVold g) = 0.
+Proof.
+  intros g hasc zero snz fi sig sinv ind K pos area Sk Dk Hf Hw ND G rho Hr Ho.
+  apply headmat_rowsum_zero; auto. unfold G. eapply IndexBridgeC10Old.finalize_old_wf_indexed; eauto.
+Qed.
+Print Assumptions potential_rows_sum_zero_for_every_loaded_geometry_old_ordering.
+
+Theorem N_blocks_keep_potential_row_sums_for_every_loaded_geometry_old_ordering :
+  forall g hasc zero snz fi sig sinv ind K pos area Sk Dk,
+  GeomModel.finalize g hasc zero snz true = (GeomModel.StOk, Some fi) -> IndexBridgeC10.meshes_well_formed g ->
+  NoDup (flat_map GeomModel.lm_verts (GeomModel.g_meshes g)) ->
+  let G := IndexBridgeC10.to_igeom g fi sig sinv ind in
+  forall rho p M, In rho (IndexBridgeC10Old.VVold g) -> In p (gpairs G) ->
+  rowsum (pair_step RO K pos area Sk Dk G M p) (vix G rho) (Cidx G (IndexBridgeC10Old.VVold g))
+  = rowsum M (vix G rho) (Cidx G (IndexBridgeC10Old.VVold g)).
+Proof.
+  intros g hasc zero snz fi sig sinv ind K pos area Sk Dk Hf Hw ND G rho p M Hr Hp.
+  apply (pair_step_keeps K pos area Sk Dk G (IndexBridgeC10Old.VVold g)); auto.
+  unfold G. eapply IndexBridgeC10Old.finalize_old_wf_indexed; eauto.
+Qed.
+Print Assumptions N_blocks_keep_potential_row_sums_for_every_loaded_geometry_old_ordering.
